@@ -68,6 +68,18 @@ def run(ck: vlib.Check):
     fmany = G.gen_file(rng, nblocks=150 if quick else 400, small=True)
     wmany = G.enc_file(fmany); pmany = fdir / "many.raw"; write_file(pmany, wmany)
     files.append((fmany, wmany, str(pmany)))
+    # thorough tier: a file whose undecoded batches exceed any plausible in-memory bound (9 blocks of 8 MiB each, the payload sits in an
+    # unknown sub-detector that the parser skips): batch size / worker count must still not change the answer
+    big_index = None
+    if not quick:
+        fbig = G.gen_file(rng, nblocks=9, small=True)
+        for bi, b in enumerate(fbig["blocks"]):
+            ev = G.gen_event(rng, nsub=0); ev["hdr"][1] = 7000 + bi
+            sd = G.gen_subdet(rng, det_id=0x99); sd.pop("ros", None); sd["raw"] = [(bi * 2654435761 + k) & 0xFFFFFFFF for k in range(1 << 21)]
+            ev["subs"] = [sd]; b["events"] = [ev]
+        fbig["entries"] = 9
+        wbig = G.enc_file(fbig); pbig = fdir / "big.raw"; write_file(pbig, wbig)
+        files.append((fbig, wbig, str(pbig))); big_index = len(files) - 1
     calls, meta = [], []   # meta: dict(kind, file index(es), mask, n_blocks, pb, mw)
     abi, alog = G.build_abi(NATIVE_DIR)     # every third call decodes with the working tree's C++ through ctypes
     if abi is None:
@@ -89,14 +101,18 @@ def run(ck: vlib.Check):
                      "nomodel": nomodel or decode})
 
     beyond = 0
-    many = len(files) - 1
+    many = len(files) - 1 - (1 if big_index is not None else 0)
+    if big_index is not None:
+        add("full", big_index, 15, -1, None, None, nomodel=True)
+        add("batch", big_index, 15, -1, 1, 2, nomodel=True)
+        add("batch", big_index, 15, -1, 2, None, nomodel=True)
     add("full", many, 63, -1, None, None)
     for pb, mw in ((1, 2), (2, None), (1, 1), (7, 4)):
         add("batch", many, 63, -1, pb, mw)
     add("first_n", many, 63, 131, 2, None)
     add("full-decoded", many, 63, -1, None, None, decode=True)
     add("batch-decoded", many, 63, -1, 1, 4, decode=True)
-    for fi, (f, w, p) in enumerate(files[:-1]):
+    for fi, (f, w, p) in enumerate(files[:many]):
         N = len(f["blocks"])
         add("full", fi, 63, -1, None, None)
         # with electronics ids decoded (the default of the public API): same clauses, judged against the decoded full read
@@ -135,6 +151,9 @@ def run(ck: vlib.Check):
     # batch sizes chosen so that several decoding tasks run while the first one is still in its first conversion
     for pb in ((5, 75, 40, 5, 75, 1) if quick else (5, 75, 40, 5, 75, 1, 10, 20, 5, 75, 150, 3)):
         add("fresh-process-decoded", many, 63, -1, pb, 4, guard=True, decode=True)
+    # a file may be listed more than once (also under another spelling of its path): every listing contributes its events
+    add("concat", None, 63, -1, 2, None, concat=[0, 1, 0])
+    add("concat", None, 63, -1, 1000, 1, concat=[2, 2])
     for k in range(2 if quick else 8):
         group = rng.sample(range(nfiles), rng.choice([2, 3]))
         add("concat", None, rng.choice([63, 63, rng.randrange(1, 64)]), -1, rng.choice([1, 2, 10000]), rng.choice([1, None]), concat=group)
@@ -227,7 +246,8 @@ def run(ck: vlib.Check):
 
     def viol(key, what, c, fi):
         if not any(v["key"] == key for v in ck.viol):
-            ck.violation(key, what, {"call": c, "files": [files[k][1] for k in ([fi] if fi is not None else [])],
+            ck.violation(key, what, {"call": c, "files": [files[k][1] if len(files[k][1]) < 2_000_000 else f"<{len(files[k][1])} words: 9 blocks, one event each, "
+                                                          "unknown sub-detector 0x99 with 2^21 payload words (see tools/props/c04.py)>" for k in ([fi] if fi is not None else [])],
                                      "n_blocks_in_file": [len(files[k][0]["blocks"]) for k in ([fi] if fi is not None else [])]})
 
     for c, m, r in zip(calls, meta, impl):
